@@ -71,6 +71,26 @@ def run(ctx):
             ctx.violation("classification differs from C scoping: got [%s] expected [%s] on %r" % (g[:120], want[:120], text[:200]), {"kind": "history", "text": text, "expected": want})
     ctx.count(len(cases), nontrivial_keys=keys)
     ctx.sample({"kind": "history", "text": cases[len(cases) // 2][0][:300], "expected": cases[len(cases) // 2][1][:200]})
+    # histories with for-init declarations.  The specification says the loop is a scope of its own; the
+    # open finding F-c04-forinit-leak is that pycparser registers the name in the enclosing block.
+    # The Lean spec predicts *both* answers, so that any third behaviour is a new violation.
+    freqs = [("c04", "forenum", "1", "0", "100"), ("c04", "forenum", "2", "0", "1000"), ("c04", "forenum", "3", "0", "1539" if ctx.quick() else "100000")]
+    if not ctx.quick():
+        freqs += [("c04", "forenum", "4", str(lo), str(lo + 4000)) for lo in range(0, 16000, 4000)]
+    fcases = S.fetch(freqs)
+    ctx.rule("all well-formed histories of <=%d events that contain a for-init declaration ('for (int T = 0;;) ;' or with an else-less if as body, which makes the parser look one token past the loop), followed directly or after probes by blocks / typedefs / objects of the same names, after 3 file-scope prefixes: the answer must be the specification's (the loop is a scope of its own); the one tolerated deviation is exactly what the open finding F-c04-forinit-leak predicts (name registered in the enclosing block), also computed by the Lean spec" % (3 if ctx.quick() else 4))
+    fgot = pmap(probe_classes, [c[0] for c in fcases])
+    fkeys = set()
+    for (text, both), g in zip(fcases, fgot):
+        want, leaky = both.split("|||")
+        fkeys.add(text)
+        if g == want:
+            continue
+        is_leak = (g == leaky) or (leaky == "REJECTED" and g.startswith("REJECTED") and "previously declared" in g)
+        ctx.violation("classification differs from C scoping (and from the known for-init leak): got [%s] expected [%s] on %r" % (g[:120], want[:120], text[:200]),
+                      {"kind": "history", "text": text, "expected": want, "leak": is_leak},
+                      lambda rp: "F-c04-forinit-leak" if rp.get("leak") else None)
+    ctx.count(len(fcases), nontrivial_keys=fkeys)
     # the model agrees with the real parser on every one of them (AST level)
     if ctx.model_available:
         from ..pyparse import py_parse_nocoord, norm_model_parse
